@@ -273,14 +273,14 @@ def holdsC05 (h : History) (tr : ImplTrace) : Verdict := Id.run do
       let is := (invs rec_).filter (isUserFn ·.1)
       let nBind := (is.filter fun x => x.1.startsWith "b").length
         + (rec_.evs.filter fun e => e.startsWith "note obschange").length
+      if roots.isEmpty && !is.isEmpty then
+        return some s!"action {idx}: node functions ran with no live observer"
       for (f, n, _, _) in is do
         if !(cPre.contains n) && !(cPost.contains n) then
           if nBind ≥ 2 then
             return some s!"F12 action {idx}: {f}@n{n} ran although it is in no live observer's cone at call or at return (transient structure: {nBind} bind closures / expert rewirings ran in this stabilise)"
           else
             return some s!"action {idx}: {f}@n{n} ran although it is in no live observer's cone at call or at return"
-      if roots.isEmpty && !is.isEmpty then
-        return some s!"action {idx}: node functions ran with no live observer"
     | _ => pure ()
     sh := sh.step a idx rec_.api
     idx := idx + 1
@@ -431,6 +431,116 @@ def holdsC08 (h : History) (tr : ImplTrace) : Verdict := Id.run do
           | none => pure ()
       for (t, _, _) in notifs rec_ do
         vals := effs ((h.defs.hdls.lookup (tokHdl[t]?.getD 0)).getD []) vals
+    | _ => pure ()
+    idx := idx + 1
+  return none
+
+/-- cutoff events of one action: (cutoff id, node, old text, new text, result) -/
+def cuts (a : ActionRec) : List (Nat × Nat × String × String × String) :=
+  a.evs.filterMap fun e =>
+    match words e with
+    | ["cut", c_at, rest] =>
+      match c_at.splitOn "@n", rest.splitOn "->" with
+      | [c, n], [args, res] => do
+        let inner := ((args.drop 1).dropEnd 1).toString
+        -- split `(old,new)` at the top-level comma
+        let rec splitTop (cs : List Char) (depth : Nat) (acc : List Char) : Option (String × String) :=
+          match cs with
+          | [] => none
+          | ch :: rest =>
+            if ch == ',' && depth == 0 then some (String.ofList acc.reverse, String.ofList rest)
+            else if ch == '(' || ch == '{' then splitTop rest (depth + 1) (ch :: acc)
+            else if ch == ')' || ch == '}' then splitTop rest (depth - 1) (ch :: acc)
+            else splitTop rest depth (ch :: acc)
+        let (o, nw) ← splitTop inner.toList 0 []
+        pure ((← (c.drop 1).toString.toNat?), (← n.toNat?), o, nw, res)
+      | _, _ => none
+    | _ => none
+
+/-- C06: cutoffs gate propagation exactly.  Per stabilise, from the snapshots before and after:
+(order) a function cutoff is consulted with (old, new) = (the node's value before, after);
+(⇐) if an input's `changed_at` is newer than a needed valid dependant's last run, the dependant ran;
+(⇒) a dependant that ran had never run, or has such an input;
+(kinds) a node that re-ran with `Never` changed; with `Always` (after its first result) did not;
+with the default cutoff it changed iff its value differs.
+`F13 …` verdicts are the documented exception (map_ref fed by map_with_old cannot consult its cutoff). -/
+def holdsC06 (h : History) (tr : ImplTrace) : Verdict := Id.run do
+  let mut sh := Shadow.init h
+  let mut idx := 0
+  -- cutoff kind per creation index, as far as the history sets it at top level
+  let mut cutKind : List (Nat × CutoffK) := []
+  for a in h.actions do
+    let rec_ := tr[idx]?.getD {}
+    let pre := if idx == 0 then ({} : ActionRec) else tr[idx - 1]?.getD {}
+    sh := sh.step a idx rec_.api
+    match a with
+    | .create (.cutoff n c) =>
+      match sh.absOf n with
+      | some k => cutKind := (k, c) :: cutKind.filter (·.1 != k)
+      | none => pure ()
+    | .create (.dependOn _ _) =>
+      -- `depend_on` installs its own cutoff closure
+      match sh.topAbs.back? with
+      | some k => cutKind := (k, .dependOn 0) :: cutKind
+      | none => pure ()
+    | .stabilise =>
+      if rec_.api == "ok" then
+        let now := rec_.statInt "num" - 1
+        -- (order)
+        for (c, n, o, _nw, _) in cuts rec_ do
+          match pre.snapOf n with
+          | some sn =>
+            if sn.val != "-" && sn.val != o && sn.kind != "MapRef" then
+              return some s!"action {idx}: cutoff c{c} of n{n} was given `{o}` as the old value, the node's value before was {sn.val}"
+            if sn.kind == "MapRef" && sn.val != "-" && sn.val != o && sn.nec then
+              return some s!"action {idx}: cutoff c{c} of map_ref n{n} was given `{o}` as the old value, its projection before was {sn.val}"
+          | none => pure ()
+        for sn in rec_.snaps do
+          let preSn := pre.snapOf sn.id
+          let rPre := (preSn.map (·.r)).getD (-1)
+          let ran := sn.r == now && rPre != now
+          let isDependant := sn.kind.startsWith "Map" || sn.kind == "Fold" || sn.kind == "BindMain" || sn.kind == "BindLhsChange"
+          if sn.valid && sn.nec && isDependant then
+            let newer := sn.ch.filter fun c => match rec_.snapOf c with
+              | some cs => cs.c > rPre
+              | none => false
+            -- (⇐)
+            if !newer.isEmpty && !ran && rPre != -1 && sn.r != now then
+              return some s!"action {idx}: n{sn.id} ({sn.kind}) did not run although its input n{newer.headD 0} changed after its last run"
+            if rPre == -1 && sn.r != now then
+              return some s!"action {idx}: n{sn.id} ({sn.kind}) is needed, has never run, and did not run"
+            -- (⇒)
+            if ran && rPre != -1 && newer.isEmpty then
+              return some s!"action {idx}: n{sn.id} ({sn.kind}) ran although none of its inputs changed since its last run"
+          -- (kinds)
+          if sn.valid && ran && rPre != -1 && sn.kind != "BindLhsChange" then
+            let k := (cutKind.lookup sn.id).getD .eq
+            let changed := sn.c == now
+            let preVal := (preSn.map (·.val)).getD "-"
+            let viaOld := sn.kind == "MapRef" && (
+              -- ultimate non-map_ref input is a map_with_old node
+              let rec up (fuel : Nat) (n : Nat) : Bool := match fuel with
+                | 0 => false
+                | f+1 => match rec_.snapOf n with
+                  | some x => if x.kind == "MapRef" then up f (x.ch.headD 0) else x.kind == "MapWithOld"
+                  | none => false
+              up 20 sn.id)
+            match k with
+            | .never =>
+              if !changed && sn.kind != "MapWithOld" && sn.kind != "MapRef" then
+                return some s!"action {idx}: n{sn.id} has Cutoff::Never, re-ran, but did not propagate"
+            | .always =>
+              if changed && preVal != "-" && sn.kind != "MapWithOld" then
+                if viaOld then return some s!"F13 action {idx}: map_ref n{sn.id} over map_with_old propagated despite Cutoff::Always"
+                else if sn.kind != "MapRef" then
+                  return some s!"action {idx}: n{sn.id} has Cutoff::Always and a previous result, but propagated"
+            | .eq =>
+              if sn.kind != "MapWithOld" && sn.kind != "MapRef" && preVal != "-" then
+                if changed && preVal == sn.val then
+                  return some s!"action {idx}: n{sn.id} re-ran to an equal value ({sn.val}) but propagated"
+                if !changed && preVal != sn.val then
+                  return some s!"action {idx}: n{sn.id} changed from {preVal} to {sn.val} but did not propagate"
+            | _ => pure ()
     | _ => pure ()
     idx := idx + 1
   return none
@@ -706,6 +816,7 @@ def evalProp (prop : String) (h : History) (tr : ImplTrace) : Verdict :=
   | "C02" => holdsC02 h tr
   | "C04" => holdsC04 h tr
   | "C05" => holdsC05 h tr
+  | "C06" => holdsC06 h tr
   | "C07" => holdsC07 h tr
   | "C08" => holdsC08 h tr
   | "C10" => holdsC10 h tr
